@@ -173,11 +173,12 @@ def native_bounded(runner, name, clause, code, bound, func):
         return {'undecided': (name, 'bounded stand-in could not run: %r' % (e,))}
     out = {'bounded': {'function': func, 'clause': clause, 'bound': bound, 'cases': res['cases'], 'failures': len(res['failures'])},
            'samples': [{'bounded-stand-in': name, 'cases': res['cases'], 'bound': bound}]}
-    if res['failures']:
-        f = res['failures'][0]
-        rp = runner.write_replay('bounded:' + name, clause, 'bounded', None, None, json.dumps(f), extra={'failing_input': f})
-        out['violation'] = Violation('bounded:' + name, clause, func, inputs=f.get('input'), replay=rp, reproduced=True,
-                                     detail='got %r, contract wants %r' % (f.get('got'), f.get('want')), kind='bounded')
+    out['violations'] = []
+    for i, f in enumerate(res['failures']):
+        # one violation per failing case, so that a failure listed as a known finding does not mask a new one
+        rp = runner.write_replay('bounded:%s.%d' % (name, i), clause, 'bounded', None, None, json.dumps(f), extra={'failing_input': f})
+        out['violations'].append(Violation('bounded:' + name, clause, func, inputs=f.get('input'), replay=rp, reproduced=True,
+                                           detail='got %r, contract wants %r' % (f.get('got'), f.get('want')), kind='bounded'))
     return out
 
 
@@ -225,6 +226,7 @@ class Runner:
         for r in custom_results:
             if r.get('violation'):
                 self.violations.append(r['violation'])
+            self.violations.extend(r.get('violations', []))
             if r.get('undecided'):
                 self.undecided.append(r['undecided'])
             if r.get('bounded'):
